@@ -192,19 +192,22 @@ func HarnessC05() {
 	verifAssert(err == nil, "program must compile")
 	if verifParam("race", 0) == 1 {
 		// native demonstration for a monitor finding (go build -race): 4 goroutines share the template
-		d := c04Data{l: []string{"A", "B", "A"}, s: "S", c: true}
-		solo, _ := c04Exec(tpl, d)
-		_ = solo
+		// the goroutines use different contexts (other list, string, lazily included name)
 		var wg sync.WaitGroup
 		for g := 0; g < 4; g++ {
 			wg.Add(1)
-			go func() {
+			go func(g int) {
 				defer wg.Done()
+				d := c04Data{l: []string{"A", "B", "A"}[:g%3+1], s: string([]byte{'S' + byte(g)}), c: g%2 == 0}
 				for i := 0; i < 30; i++ {
-					c04Exec(tpl, d)
+					ctx := d.ctx()
+					if (g+i)%2 == 1 {
+						ctx["lazyname"] = "lib"
+					}
+					tpl.Execute(ctx)
 					set.FromCache("inc")
 				}
-			}()
+			}(g)
 		}
 		wg.Wait()
 		return
